@@ -960,18 +960,24 @@ def lazily_stage_wrapper(plan):
     COMMANDS = set(["read", "set", "trigger", "kickoff"])  # noqa: C405
     # Cache devices in the order they are staged; then unstage in reverse.
     devices_staged = []
+    roots_staged = []  # what 'stage' was sent to (its answer need not list every component)
 
     def inner(msg):
         if msg.command in COMMANDS and msg.obj not in devices_staged:
             root = root_ancestor(msg.obj)
+            if any(root is staged for staged in roots_staged):
+                # a component that its (already staged) root did not list when it was staged
+                return None, None
 
             def new_gen():
                 # Here we insert a 'stage' message
                 ret = yield Msg("stage", root)
+                roots_staged.append(root)
                 # and cache the result
-                if ret is None:
+                if ret is None or not isinstance(ret, (list, tuple)):
                     # The generator may be being list-ified.
                     # This is a hack to make that possible.
+                    # (A device may also answer with a status object instead of a list.)
                     ret = [root]
                 devices_staged.extend(ret)
                 # and then proceed with our regularly scheduled programming
